@@ -1,7 +1,125 @@
-//! C13 (to be filled in)
+//! C13 — --dereference copies what links point to, or fails; never leaves links or gaps
+
 use super::*;
-pub fn run(_ctx: &Ctx) -> Report {
-    let mut r = Report::new("model_checking", "not implemented");
-    r.machinery_errors.push("C13 not implemented yet".into());
-    r
+use crate::explore::Judge;
+use crate::scen::Entry;
+
+pub fn judge(w: &Worker, scen: &Scenario, ex: &Exec) -> Judgement {
+    let exp = model::expect(scen);
+    let mut v = vec![];
+    if let Some(why) = &exp.must_fail {
+        if exit0(ex) {
+            v.push(format!("exit 0 although {}", why));
+        }
+    }
+    if exit0(ex) {
+        v.extend(judge_exit0_tree(w, scen, ex, &exp, Level::Content));
+        for (k, n) in ex.snap.iter().filter(|_| exp.opts.deref) {
+            if (k == "dst" || k.starts_with("dst/")) && n.kind == 'l' {
+                v.push(format!("exit 0 but the destination contains a symbolic link: {}", k));
+            }
+        }
+    }
+    v.truncate(8);
+    simple_judge(v, ex, true)
+}
+
+/// link specifications placed inside src/ : (name, entries)
+fn specs() -> Vec<(&'static str, Vec<Entry>)> {
+    let chain = |n: usize, name: &str, last: &str| -> Vec<Entry> {
+        let mut v = vec![];
+        for i in 0..n {
+            let p = format!("src/{}{}", name, i);
+            let t = if i + 1 == n { last.to_string() } else { format!("{}{}", name, i + 1) };
+            v.push(Entry::link(&p, &t));
+        }
+        v
+    };
+    vec![
+        ("rel-file", vec![Entry::link("src/l_rel", "t")]),
+        ("abs-file", vec![Entry::link("src/l_abs", "{R}/src/t")]),
+        ("outside-file", vec![Entry::link("src/l_out", "../outside/o")]),
+        ("rel-dir", vec![Entry::link("src/ld", "rd")]),
+        ("abs-dir", vec![Entry::link("src/ld_abs", "{R}/src/rd")]),
+        ("outside-dir", vec![Entry::link("src/ld_out", "../outside")]),
+        ("nested-dir-link", vec![Entry::link("src/rd/up_to_t", "../t")]),
+        ("dir-with-inner-dirlink", vec![Entry::dir("src/rd/inner"), Entry::file("src/rd/inner/y", "inner y"), Entry::link("src/ld_inner", "rd/inner")]),
+        ("chain2-file", chain(2, "c", "t")),
+        ("chain3-dir", chain(3, "k", "rd")),
+        ("chain8-file", chain(8, "e", "t")),
+        ("dangling", vec![Entry::link("src/dang", "nowhere")]),
+        ("dangling-abs", vec![Entry::link("src/dang_abs", "{R}/nowhere")]),
+        ("cycle2", vec![Entry::link("src/ca", "cb"), Entry::link("src/cb", "ca")]),
+        ("self", vec![Entry::link("src/selfl", "selfl")]),
+        ("ancestor-dot", vec![Entry::link("src/anc", ".")]),
+        ("ancestor-dotdot", vec![Entry::link("src/rd/anc2", "..")]),
+        ("chain41", chain(41, "z", "t")),
+        ("link-in-linked-dir-dangling", vec![Entry::link("src/rd/inner_dang", "gone")]),
+    ]
+}
+
+fn base() -> Vec<Entry> {
+    vec![
+        Entry::dir("outside"),
+        Entry::file("outside/o", "outside content").mtime(1_300_000_009, 9),
+        Entry::dir("src"),
+        Entry::file("src/t", "target file content").mtime(1_300_000_000, 1),
+        Entry::dir("src/rd"),
+        Entry::file("src/rd/x", "x in real dir").mtime(1_300_000_001, 2),
+    ]
+}
+
+pub fn scenarios(quick: bool) -> Vec<Scenario> {
+    let mut v = vec![];
+    let sp = specs();
+    for d in drivers() {
+        // inside a -r tree: each spec alone, and each pair
+        for i in 0..sp.len() {
+            let mut tree = base();
+            tree.extend(sp[i].1.clone());
+            v.push(Scenario::new(&format!("deref-tree-{}-{}", sp[i].0, d), tree, &["-r", "-L", "--driver", d, "-w", "2", "src", "dst"]));
+            for j in (i + 1)..sp.len() {
+                if quick && (i * 7 + j) % 3 != 0 {
+                    continue;
+                }
+                let mut tree = base();
+                tree.extend(sp[i].1.clone());
+                tree.extend(sp[j].1.clone());
+                v.push(Scenario::new(&format!("deref-tree-{}+{}-{}", sp[i].0, sp[j].0, d), tree, &["-r", "-L", "--driver", d, "-w", "2", "src", "dst"]));
+            }
+        }
+        // as the top-level source argument
+        for (name, ents) in &sp {
+            let mut tree = base();
+            tree.extend(ents.clone());
+            let first = ents.iter().find(|e| matches!(e.kind, crate::scen::Kind::Symlink(_))).unwrap().path.clone();
+            for dest_exists in [false, true] {
+                let mut t2 = tree.clone();
+                if dest_exists {
+                    t2.push(Entry::dir("dst"));
+                }
+                v.push(Scenario::new(&format!("deref-top-{}-{}-dst{}", name, d, dest_exists), t2, &["-r", "-L", "--driver", d, "-w", "2", &first, "dst"]));
+            }
+        }
+        // without -L links stay links (control)
+        let mut tree = base();
+        tree.extend(sp[0].1.clone());
+        tree.extend(sp[3].1.clone());
+        tree.extend(sp[11].1.clone());
+        v.push(Scenario::new(&format!("noderef-control-{}", d), tree, &["-r", "--driver", d, "-w", "2", "src", "dst"]));
+    }
+    v
+}
+
+pub fn run(ctx: &Ctx) -> Report {
+    let mut rep = Report::new(
+        "model_checking",
+        "trees built from 19 link shapes (relative/absolute/outside links to files and directories, links inside linked directories, chains of 2, 3, 8 and 41 links, dangling, 2-cycle, self-link, links to ancestors), each alone and in pairs inside a -r tree and as the top-level source, both drivers, executed under P0 and P1; oracle: the reference model resolves every path; exit 0 => no symbolic link anywhere in the destination, files carry the target's bytes, linked directories their contents; any dangling or cyclic link => exit != 0; non-trivial = distinct trace",
+    );
+    let j: Judge = &judge;
+    let sc = scenarios(ctx.quick());
+    let n = sc.len();
+    let st = scen_batch(ctx, sc, &[Policy::P0, Policy::P1], j);
+    rep.part("link shapes alone, in pairs, as top-level source", st, serde_json::json!({"scenarios": n}));
+    rep
 }
